@@ -67,6 +67,41 @@ func observeC01(c *Case, in *PacketIn, prev []byte) {
 	}
 }
 
+// withDupes makes an element id occur twice now and then (legal on the wire for both RFC 8285
+// forms and reachable through Unmarshal; the accessors see the first, the encoder writes both).
+func withDupes(c *Case, p *PacketIn) {
+	if len(p.Exts) >= 2 && p.H.Extension && (p.H.ExtensionProfile == 0xBEDE || p.H.ExtensionProfile == 0x1000) && c.R.Chance(1, 6) {
+		i, j := c.R.Intn(len(p.Exts)), c.R.Intn(len(p.Exts))
+		if i != j {
+			p.Exts[i].ID = p.Exts[j].ID
+			c.Tag("dup-ids")
+		}
+	}
+}
+
+// genPrev draws what a reused receiver decoded before: nothing, a valid packet, a valid packet cut
+// short (Unmarshal fails part-way and leaves the receiver half-written), or random bytes.
+func genPrev(c *Case) []byte {
+	switch c.R.Intn(6) {
+	case 0:
+		return nil
+	case 1:
+		c.Tag("prev=random")
+		return c.R.Bytes(c.R.Intn(48))
+	case 2:
+		c.Tag("prev=truncated")
+		q := genPacketWF(c.R, 40).Build()
+		b, _ := q.Marshal()
+		if len(b) > 0 {
+			b = b[:c.R.Intn(len(b))]
+		}
+		return b
+	}
+	q := genPacketWF(c.R, 40).Build()
+	b, _ := q.Marshal()
+	return b
+}
+
 func tagPacket(c *Case, p *PacketIn) {
 	switch {
 	case !p.H.Extension:
@@ -216,14 +251,10 @@ func init() {
 					c.Tag("odd")
 				} else {
 					p = genPacketWF(c.R, maxPl)
+					withDupes(c, p)
 				}
 				tagPacket(c, p)
-				var prev []byte
-				if c.R.Chance(2, 3) {
-					q := genPacketWF(c.R, 40).Build()
-					prev, _ = q.Marshal()
-				}
-				observeC01(c, p, prev)
+				observeC01(c, p, genPrev(c))
 			})
 		}
 	})
@@ -431,6 +462,7 @@ func init() {
 					c.Tag("odd")
 				} else {
 					p = genPacketWF(c.R, maxPl)
+					withDupes(c, p)
 				}
 				tagPacket(c, p)
 				ls := c04Lengths(p.Build())
@@ -754,6 +786,7 @@ func init() {
 				if !p.H.Extension && c.R.Bool() {
 					p.H.ExtensionProfile = uint16(c.R.Intn(65536))
 				}
+				withDupes(c, p)
 				tagPacket(c, p)
 				mk := c.R.Intn(6)
 				c.Tag([]string{"mut=none", "mut=payload", "mut=csrc", "mut=extbyte", "mut=set", "mut=del"}[mk])
